@@ -175,7 +175,7 @@ def handler_src(prog, part, m, in_trait):
     if m["kind"] in ("exec", "instantiate"):
         mutc += "        rec::touch_funds(ctx.deps.storage, &ctx.info.funds);\n"
     fin = ("rec::qresp_t" if m["kind"] == "query" else "rec::resp") + '("%s", %d, %s)' % (m["name"], m["code"], ok)
-    if m["kind"] == "instantiate":      # (spawns a child contract when it is handed `zeta` coins: only on the multitest chains)
+    if m["kind"] in ("instantiate", "exec"):      # (spawns a child contract when it is handed `zeta` coins: only on the multitest chains)
         fin = 'rec::resp_spawning("%s", %d, %s, &ctx.info.funds)' % (m["name"], m["code"], ok)
     err = "HandlerErr" if part["id"] == "own" else "ContractError"   # interfaces share the contract's error type
     rty = ("QResultB<" + err + ">") if aliased else ("Result<%s, " % ret + err + ">")
@@ -300,21 +300,22 @@ def remote_src(prog):
                                  part["id"], m["name"], val))
     own = [p for p in prog["parts"] if p["id"] == "own"][0]
     inst = [m for m in own["methods"] if m["kind"] == "instantiate"][0]
-    for val, variant in ((0, "plain"), (1, "full"), (0, "salted")):
+    # (code ids: an ordinary one, the largest there is, and 0 -- no chain hands that one out, the builder keeps what it is given)
+    for val, variant, cid in ((0, "plain", "40"), (1, "full", "18446744073709551615"), (0, "salted", "0")):
         lets = "".join("let %s: %s = %s; " % (rn(a), TYPES[a["t"]][0], pick(a["t"], val, i)[0]) for i, a in enumerate(inst["args"]))
         call_args = "".join(", %s.clone()" % rn(a) for a in inst["args"])
         encs = ", ".join('("%s", rec::enc(&%s))' % (a["n"], rn(a)) for a in inst["args"])
         o.append("        { use sv::CtrInstantiateBuilder; use sylvia::builder::instantiate::InstantiateBuilder; %slet funds = verif_rrt::funds_pool(%d);\n"
-                 "          let b = InstantiateBuilder::ctr(%d%s);\n" % (lets, val + 1, 40 + val, call_args))
+                 "          let b = InstantiateBuilder::ctr(%s%s);\n" % (lets, val + 1, cid, call_args))
         if variant == "plain":
             o.append("          let w = b.map(|b| b.build());\n"
-                     "          remote::instantiate(&vt, seq, %d, \"plain\", %d, \"\", \"\", &[], \"\", vec![%s], w); seq += 1; }\n" % (val, 40 + val, encs))
+                     "          remote::instantiate(&vt, seq, %d, \"plain\", %s, \"\", \"\", &[], \"\", vec![%s], w); seq += 1; }\n" % (val, cid, encs))
         elif variant == "full":
             o.append("          let w = b.map(|b| b.with_label(\"lbl\").with_admin(\"adm\".to_string()).with_funds(funds.clone()).build());\n"
-                     "          remote::instantiate(&vt, seq, %d, \"full\", %d, \"lbl\", \"adm\", &funds, \"\", vec![%s], w); seq += 1; }\n" % (val, 40 + val, encs))
+                     "          remote::instantiate(&vt, seq, %d, \"full\", %s, \"lbl\", \"adm\", &funds, \"\", vec![%s], w); seq += 1; }\n" % (val, cid, encs))
         else:
             o.append("          let w = b.map(|b| b.with_label(\"l2\").build2(sylvia::cw_std::Binary::from(b\"salt\".to_vec())));\n"
-                     "          remote::instantiate(&vt, seq, %d, \"salted\", %d, \"l2\", \"\", &[], \"c2FsdA==\", vec![%s], w); seq += 1; }\n" % (val, 40 + val, encs))
+                     "          remote::instantiate(&vt, seq, %d, \"salted\", %s, \"l2\", \"\", &[], \"c2FsdA==\", vec![%s], w); seq += 1; }\n" % (val, cid, encs))
     o.append("        { let addr = Addr::unchecked(\"TARGET9\"); let remote: Remote<%s> = Remote::new(addr.clone());\n" % ("Ctr<GenVal>" if prog.get("family") == "generic" else "Ctr") +
              "          remote::admin(&vt, \"update_admin\", &addr, \"new_adm\", remote.update_admin(\"new_adm\"));\n"
              "          remote::admin(&vt, \"clear_admin\", &addr, \"\", remote.clear_admin()); }\n"
@@ -362,10 +363,14 @@ def builder_src(prog):
 
 
 def schema_src(prog):
-    o = ["    fn schema_events() {\n        use sylvia::cw_schema::QueryResponses;\n"]
+    o = ["    fn schema_events() {\n        use sylvia::cw_schema::QueryResponses;\n"
+         "        let mut gen = sylvia::cw_schema::schemars::gen::SchemaGenerator::default();\n"]
     for p in prog["parts"]:
         o.append("        rec::schemas(\"%s\", \"%s\", <%s as QueryResponses>::response_schemas().map_err(|e| e.to_string()), -1);\n" % (prog["id"], p["id"], msg_path(p, "query")))
     w = wrap_path(prog, "query")
+    # the contract-level schema, by one generator for everything this program asks: the any-of of the schemas of its parts' messages
+    o.append("        { let parts = vec![%s]; rec::anyof_in::<%s>(&mut gen, parts); }\n" % (
+        ", ".join("gen.subschema_for::<%s>()" % msg_path(p, "query") for p in prog["parts"]), w))
     o.append("        let root = sylvia::cw_schema::schemars::schema_for!(%s);\n"
              "        let anyof = root.schema.subschemas.as_ref().and_then(|s| s.any_of.as_ref()).map(|a| a.len() as i64).unwrap_or(-1);\n"
              "        rec::schemas(\"%s\", \"contract\", <%s as QueryResponses>::response_schemas().map_err(|e| e.to_string()), anyof);\n    }\n\n" % (w, prog["id"], w))
@@ -377,11 +382,15 @@ def schema_src(prog):
             ty = ("<%s as sylvia::types::ContractApi>::Query" % c2) if p["id"] == "own" else ("<%s as %s::sv::InterfaceMessagesApi>::Query" % (c2, imod(p)))
             o.append("        rec::schemas_at(\"%s\", \"%s\", \"GenVal2\", <%s as QueryResponses>::response_schemas().map_err(|e| e.to_string()), -1);\n" % (prog["id"], p["id"], ty))
         w2 = "<%s as sylvia::types::ContractApi>::ContractQuery" % c2
+        tys2 = [("<%s as sylvia::types::ContractApi>::Query" % c2) if p["id"] == "own" else ("<%s as %s::sv::InterfaceMessagesApi>::Query" % (c2, imod(p))) for p in prog["parts"]]
+        o.append("        { let parts = vec![%s]; rec::anyof_in::<%s>(&mut gen, parts); }\n" % (", ".join("gen.subschema_for::<%s>()" % t for t in tys2), w2))
         o.append("        let root = sylvia::cw_schema::schemars::schema_for!(%s);\n"
                  "        let anyof = root.schema.subschemas.as_ref().and_then(|s| s.any_of.as_ref()).map(|a| a.len() as i64).unwrap_or(-1);\n"
                  "        rec::schemas_at(\"%s\", \"contract\", \"GenVal2\", <%s as QueryResponses>::response_schemas().map_err(|e| e.to_string()), anyof);\n" % (w2, prog["id"], w2))
         # ... and once more with the first type (a table must not depend on what was asked before)
         w = wrap_path(prog, "query")
+        o.append("        { let parts = vec![%s]; rec::anyof_in::<%s>(&mut gen, parts); }\n" % (
+            ", ".join("gen.subschema_for::<%s>()" % msg_path(p, "query") for p in prog["parts"]), w))
         o.append("        rec::schemas(\"%s\", \"contract\", <%s as QueryResponses>::response_schemas().map_err(|e| e.to_string()), anyof);\n    }\n\n" % (prog["id"], w))
     return "".join(o)
 
@@ -421,7 +430,7 @@ def mt_src(prog):
              "            let mut codes = vec![];\n            let mut raw_codes: Vec<u64> = vec![];\n"
              "            let mut ctr_p = None;\n            let mut ctr_r: Option<Addr> = None;\n"
              "            for (si, op) in h.as_array().cloned().unwrap_or_default().iter().enumerate() {\n"
-             "                cur.set((si, op.clone()));\n"
+             "                cur.set((si, op.clone())); mt::mark_runs(0);\n"
              "                let s = |k: &str| op[k].as_str().unwrap_or(\"\").to_string();\n"
              "                let val = op[\"val\"].as_u64().unwrap_or(0);\n"
              "                let f = mt::funds(op[\"funds\"].as_u64().unwrap_or(0));\n"
@@ -523,7 +532,11 @@ def mt_src(prog):
              "            }\n          }));\n"
              "          if let Err(m) = res { let (si, op) = cur.take(); mt::emit_panic(\"%s\", hi, si, &op, &m); }\n"
              "        }\n    }\n\n" % (pid, pid))
-    return "".join(o)
+    # handler invocations are counted per side: a mark before the proxy call, one between it and the raw submission
+    src = "".join(o)
+    src = src.replace("let pr = ", "mt::mark_runs(0); let pr = ").replace("let (pr, docj) = match val {", "mt::mark_runs(0); let (pr, docj) = match val {")
+    src = src.replace("let rr = ", "mt::mark_runs(1); let rr = ").replace("let rr: ", "mt::mark_runs(1); let rr: ")
+    return src
 
 
 def override_src(prog):
